@@ -704,6 +704,7 @@ func main() {
 		r := hx.Rand()
 		impConstStage(r)
 		sockStage()
+		hostStage(*hx.Work)
 		per, nops := 200, 40
 		if hx.Thorough() {
 			per, nops = 2500, 70
